@@ -343,7 +343,7 @@ def fsFails (fs : Bytes) (re : Option ρ) : Bool := runeCount fs > 1 && re.isNon
 def setModeEnv (env : Env ρ) : OutMode → Env ρ
   | .default => { env with csv := none }
   | .csv sep => { env with csv := some sep }
-  | .invalid => env
+  | .invalid => { env with csv := none }   -- `parseOutputMode` failed: `p.outputMode` has already been overwritten with DefaultMode
 
 def step (r : Rec ρ) : Op ρ → Rec ρ × Out
   | .setLine s t => (setLine r s t, .none)
@@ -355,7 +355,7 @@ def step (r : Rec ρ) : Op ρ → Rec ρ × Out
   | .setOFS s => ({ r with env := { r.env with ofs := s } }, .none)
   | .setOutMode m =>
     match m with
-    | .invalid => (r, .err .badOutMode)
+    | .invalid => ({ r with env := setModeEnv r.env .invalid }, .err .badOutMode)
     | m => ({ r with env := setModeEnv r.env m }, .none)
 
 /-- a program aborts at the first runtime error -/
@@ -410,7 +410,7 @@ def specStep (s : Spec ρ) : Op ρ → Spec ρ × Out
   | .setOFS v => ({ s with env := { s.env with ofs := v } }, .none)
   | .setOutMode m =>
     match m with
-    | .invalid => (s, .err .badOutMode)
+    | .invalid => ({ s with env := setModeEnv s.env .invalid }, .err .badOutMode)
     | m => ({ s with env := setModeEnv s.env m }, .none)
 
 def specRun (s : Spec ρ) : List (Op ρ) → List Out
